@@ -108,7 +108,7 @@ func (e *env) build(cs *Case) (op plugintypes.Operator, berr string) {
 
 // eval evaluates op on one input.
 func (e *env) eval(op plugintypes.Operator, berr string, cs *Case, input string, capture bool) *Obs {
-	o := &Obs{}
+	o := &Obs{Capture: capture}
 	if berr != "" {
 		if strings.HasPrefix(berr, "PANIC ") {
 			o.Panic = strings.TrimPrefix(berr, "PANIC ")
@@ -227,7 +227,7 @@ func (e *env) buildRule(cs *Case) *ruleWAF {
 
 // run pushes one header value through a fresh transaction.
 func (r *ruleWAF) run(input string) *Obs {
-	o := &Obs{Rule: true}
+	o := &Obs{Rule: true, Capture: true}
 	if r.waf == nil {
 		o.BuildErr = r.err
 		return o
